@@ -160,8 +160,10 @@ func (r *Run) Export() *Partial {
 	return p
 }
 
+// AddWall counts the wall time of another part of the same check (run before this one) into the reported time.
+func (r *Run) AddWall(sec float64) { r.Start = r.Start.Add(-time.Duration(sec * float64(time.Second))) }
+
 func (r *Run) Merge(p *Partial) {
-	r.Start = r.Start.Add(-time.Duration(p.WallS * float64(time.Second))) // the other part's wall time counts
 	r.Evaluations.Add(p.Evaluations)
 	r.Transitions.Add(p.Transitions)
 	r.Traces.Add(p.Traces)
